@@ -110,6 +110,12 @@ OPT_IN classes (never produced unless listed in ``allow``; each is tied to a kno
     "long-names": ~20% of the definition names get a drawn length from COVER_NAME_LENGTHS or 1..63 (classes "long-names",
         "name-length-<n>"/"name-length-other").  NOTE: on /repo 3e08c53 the C back end writes '#define MT_<name><value>'
         without a separator for names of >= 48 characters (constants, MT_, MID_, HID_; see scratch/fixes/c-define-long-name.diff)
+    "reserved-loose": _RESERVED_ entries in undocumented spellings (LOOSE_RESERVED_SPELLINGS: several ranges in one quoted
+        string separated by comma / space / semicolon, "a-b-c", trailing or leading text, a single id as a string, a descending
+        range); classes "reserved-loose", "reserved-loose/<spelling>".  Contract: the compiler either honours the entry IN FULL
+        (expected_registry() lists every id it names) or rejects the file with RTMASyntaxError - the program stays
+        wellformed=True but callers must accept that rejection; inject_conflict / all_conflict_cases use the same spellings
+        with expected ["MessageIDError", "RTMASyntaxError"] (conflict["loose_spelling"])
     "reserved-field-name": ~70% of the programs get (add_reserved_field_name(program, ch, name=None)) one field of one
         message/struct renamed to one of RESERVED_FIELD_NAMES; the compiler must reject it: wellformed False,
         expected_error "RTMASyntaxError", expect {"outcome","at","field"}, classes "reserved-field-name[/<name>]"
@@ -159,7 +165,7 @@ BY_WIDTH = {w: [n for n, s in NATIVES.items() if s == w] for w in (1, 2, 4, 8)}
 LENGTHS = [1, 2, 3, 7, 8, 32, 255, 256, 1000]
 RESERVED_FIELD_NAMES = ("type_id", "type_name", "type_hash", "type_source", "type_def", "type_size", "hexdump")
 OPT_IN = ("alias-of-imported-struct", "alias-of-imported-struct-field", "struct-contains-message", "string-special",
-          "prefix-names", "zero-length", "long-names", "fractional-length", "reserved-field-name")
+          "prefix-names", "zero-length", "long-names", "fractional-length", "reserved-field-name", "reserved-loose")
 COVER_NAME_LENGTHS = [1, 2, 31, 32, 40, 45, 46, 47, 48, 63]
 MAX_NAME_LENGTH = 63  # MATLAB's namelengthmax
 MAX_SIZE = 65535
@@ -1400,7 +1406,20 @@ class _Builder:
         ch = self.ch
         entries, flags = [], []
         for _ in range(ch.integer(1, 3)):
-            how = ch.weighted([("int", 3), ("dash", 3), ("to", 3)])
+            how = ch.weighted([("int", 3), ("dash", 3), ("to", 3), ("loose", 3 if "reserved-loose" in self.allow else 0)])
+            if how == "loose":
+                sp = ch.choice(LOOSE_RESERVED_SPELLINGS)
+                for _t in range(50):
+                    h = ch.cos.integer(1020, 9980)
+                    if not any(i in self.msg_ids for i in range(h - 12, h + 3)):
+                        break
+                else:
+                    continue
+                ent = _reserved_entry_loose(sp, h)
+                self.msg_ids.update(range(h - 12, h + 3))
+                entries.append(ent)
+                flags += ["reserved-loose", f"reserved-loose/{sp}"]
+                continue
             if how == "int":
                 i = self.fresh_id(self.msg_ids, 1000, 9999)
                 entries.append([i, [i]])
@@ -2361,6 +2380,32 @@ def _reserved_entry(spelling: str, hit: int, pos: str, ch: Chooser, avoid: Set[i
     return [text, ids]
 
 
+# spellings of a reserved entry that no document shows but a user can plausibly write (several ranges in one quoted string, a chain,
+# trailing or leading text, a single id as a string, a descending range).  Contract used by the checks: such an entry is either
+# honoured IN FULL (every id it names is reserved) or rejected as a syntax error; silently reserving only a part is wrong.
+LOOSE_RESERVED_SPELLINGS = ["multi-comma", "multi-space", "multi-semicolon", "multi-to", "chain", "garbage-and", "garbage-semicolon",
+                            "string-id", "descending", "leading-garbage"]
+
+
+def _reserved_entry_loose(spelling: str, h: int) -> list:
+    """[quoted text, ids it names] with id ``h`` in the part that a first-match reading would drop (needs h-12 .. h+2 free)."""
+    lo = list(range(h - 12, h - 9))
+    near = [h - 1, h, h + 1]
+    text, ids = {
+        "multi-comma": (f"{h - 12}-{h - 10}, {h - 1}-{h + 1}", lo + near),
+        "multi-space": (f"{h - 12} - {h - 10} {h - 1} - {h + 1}", lo + near),
+        "multi-semicolon": (f"{h - 12}-{h - 10};{h - 1}-{h + 1}", lo + near),
+        "multi-to": (f"{h - 12} to {h - 10}, {h - 1} to {h + 1}", lo + near),
+        "chain": (f"{h - 12}-{h - 10}-{h + 2}", list(range(h - 12, h + 3))),
+        "garbage-and": (f"{h - 12}-{h - 10} and {h}", lo + [h]),
+        "garbage-semicolon": (f"{h - 12}-{h - 10};{h}", lo + [h]),
+        "string-id": (f"{h}", [h]),
+        "descending": (f"{h + 1}-{h - 1}", near),
+        "leading-garbage": (f"x{h - 1}-{h + 1}", near),
+    }[spelling]
+    return [f'"{text}"', ids]
+
+
 def _add_reserved(spec: FileSpec, entry: list, ch: Chooser, where: Optional[str] = None):
     for d in spec.defs:
         if d.kind == "reserved":
@@ -2421,13 +2466,19 @@ def inject_conflict(program: Program, kind: str, placement: str, ch: Chooser, sw
     fam, _, rest = kind.partition("/")
     if fam == "msgid" and rest != "user-core":
         k1, k2 = rest.split("-")
-        hit = ctx.fresh_msg_id(span=8)
+        hit = ctx.fresh_msg_id(span=16)
         info["id"] = hit
+        loose = False
         for k, spec, where, n in ((k1, sa, w1, 1), (k2, sb, w2, 2)):
             if k == "reserved":
                 sp = variant.get(f"spelling{n}") or ch.choice(RESERVED_SPELLINGS)
                 ps = variant.get(f"pos{n}") or ch.choice(["start", "mid", "end"])
-                ent = _reserved_entry(sp, hit, ps, ch, ctx.msg_ids - {hit})
+                if sp in LOOSE_RESERVED_SPELLINGS:
+                    ent = _reserved_entry_loose(sp, hit)
+                    loose = True
+                    info["loose_spelling"] = sp
+                else:
+                    ent = _reserved_entry(sp, hit, ps, ch, ctx.msg_ids - {hit})
                 ctx.msg_ids.update(ent[1])
                 _add_reserved(spec, ent, ch, where)
                 names.append(f"_RESERVED_[{ent[0]}]")
@@ -2439,6 +2490,8 @@ def inject_conflict(program: Program, kind: str, placement: str, ch: Chooser, sw
                 _insert(spec, d, ch, where)
                 names.append(nm)
         expected = ["MessageIDError"]
+        if loose:  # undocumented spelling: honoured in full (=> the id conflict) or refused as a syntax error
+            expected = ["MessageIDError", "RTMASyntaxError"]
     elif kind == "msgid/user-core":
         core = core_defs()
         hit = ch.choice(sorted(core["message_defs"].values()))
@@ -2562,6 +2615,9 @@ def all_conflict_cases() -> List[dict]:
                     add("msgid/reserved-reserved", pl, swap, spelling1=v1, spelling2=v2, pos1=ps, pos2="end" if ps == "start" else "start")
             add("modid/dup", pl, swap)
             add("hostid/dup", pl, swap)
+        for sp in LOOSE_RESERVED_SPELLINGS:
+            add("msgid/msg-reserved", pl, False, spelling2=sp)
+            add("msgid/reserved-signal", pl, True, spelling1=sp)
         for a in SHARED_KINDS:
             for b in SHARED_KINDS:
                 add(f"name/{a}-{b}", pl, False, flavour1="message", flavour2="message")
@@ -2600,7 +2656,11 @@ def conflict_programs(kinds: Optional[Sequence[str]] = None, placements: Optiona
         base = build_program(ch, **kw)
         kind = ch.choice(list(kinds or CONFLICT_KINDS))
         pls = [pl for pl in (placements or PLACEMENTS) if file_pairs(base, pl)]
-        q = inject_conflict(base, kind, ch.choice(pls), ch, swap=ch.chance(0.5))
+        variant = {}
+        if kind.startswith("msgid/") and "reserved" in kind and kind != "msgid/user-core" and ch.chance(0.3):
+            n = 1 if kind.split("/")[1].startswith("reserved") else 2
+            variant[f"spelling{n}"] = ch.choice(LOOSE_RESERVED_SPELLINGS)  # undocumented way of writing the reservation
+        q = inject_conflict(base, kind, ch.choice(pls), ch, swap=ch.chance(0.5), variant=variant)
         return q
 
     return _cp()
